@@ -67,7 +67,9 @@ isal_md5_ctx_mgr_submit(ISAL_MD5_HASH_CTX_MGR *mgr, ISAL_MD5_HASH_CTX *ctx_in,
         *ctx_out = _md5_ctx_mgr_submit(mgr, ctx_in, buffer, len, flags);
 
 #ifdef SAFE_PARAM
-        if (*ctx_out != NULL &&
+        /* report only the error of the context this call submitted: a different context
+         * handed back may still carry the error of an earlier, rejected call */
+        if (*ctx_out == ctx_in &&
             (ISAL_MD5_HASH_CTX *) (*ctx_out)->error != ISAL_HASH_CTX_ERROR_NONE) {
                 ISAL_MD5_HASH_CTX *cp = (ISAL_MD5_HASH_CTX *) (*ctx_out);
 
